@@ -291,7 +291,7 @@ class URLInfo(object):
 
     @property
     def query_map(self):
-        if self._query_map is None:
+        if self._query_map is None and self.query is not None:
             self._query_map = query_to_map(self.query)
         return self._query_map
 
